@@ -46,3 +46,18 @@ UNITS.append(U(name='htp_connp_req_data', props=['C09', 'C16', 'C01'], kind='con
                assumes=A + ['every request state function replaced by the shared contract contract_req_state (each one is enforced against a contract that contains it)',
                             'termination of the driver loop is NOT proved here (no decreases clause): see DESIGN C09',
                             'callbacks return OK/DECLINED/STOP/ERROR only']))
+
+C16S = 'CONNECT: '
+st('htp_connp_REQ_CONNECT_CHECK', ['C16', 'C09', 'C01'], C16S + 'a CONNECT request suspends the request side (DATA_OTHER) and moves no offset (cursor not in the frame)')
+st('htp_connp_REQ_CONNECT_WAIT_RESPONSE', ['C16', 'C09', 'C01'], C16S + 'nothing changes until the response line is seen; 2xx => probe the tunnel, else resume with request finalisation')
+st('htp_connp_REQ_CONNECT_PROBE_DATA', ['C16', 'C09', 'C01'], C16S + 'pending bytes are never discarded; known method => normal completion, else both directions TUNNEL; DATA_BUFFER leaves everything untouched',
+   replace=['htp_connp_req_consolidate_data', 'bstr_dup_mem/contract_site_bstr_dup_mem', 'htp_convert_method_to_number',
+            'htp_tx_state_request_complete/contract_stub_htp_tx_state_request_complete'],
+   link=['htp_util.c', 'bstr.c'],
+   loops={'count': 3,
+          0: dict(assigns='connp->in_next_byte, connp->in_current_read_offset, connp->in_stream_offset',
+                  inv=['connp->in_current_read_offset >= __CPROVER_loop_entry(connp->in_current_read_offset)', 'connp->in_current_read_offset <= connp->in_current_len',
+                       'connp->in_stream_offset == __CPROVER_loop_entry(connp->in_stream_offset) + (connp->in_current_read_offset - __CPROVER_loop_entry(connp->in_current_read_offset))'],
+                  dec='connp->in_current_len - connp->in_current_read_offset'),
+          1: dict(assigns='pos', inv=['pos <= len'], dec='len - pos'),
+          2: dict(assigns='pos', inv=['pos <= len', 'mstart <= pos'], dec='len - pos')})
